@@ -397,8 +397,23 @@ def _check(prop, tier, seed, tmp, t0):
     rcs = run_procs(jobs, secs * 4 + 900)
     sums, crashes = [], []
     transient = []
+    def race_report(i):
+        txt = ""
+        for rp in glob.glob(os.path.join(tmp, "race_%d*" % i)) + [os.path.join(tmp, "log_%d" % i)]:
+            try:
+                txt += open(rp).read()
+            except OSError:
+                pass
+        return txt
+
     for i, rc in enumerate(rcs):
         p = os.path.join(tmp, "out_%d.json" % i)
+        if rc == 66 and "DATA RACE" not in race_report(i):
+            # exit status of the race runtime without a race report: the runtime itself gave up
+            # (seen: "ThreadSanitizer: CHECK failed" under load). Not a verdict; same treatment as any other death.
+            rc = rcs[i] = 67
+            for rp in glob.glob(os.path.join(tmp, "race_%d*" % i)):
+                os.remove(rp)
         if not (rc == 0 and os.path.exists(p)) and rc not in (66, -9):
             # A process death that is not a race report: first see whether the run it died in
             # reproduces the death; if not, it is not a property of that execution (seen: the
